@@ -49,7 +49,24 @@ ASSUMPTIONS = [
     "no NUL after names)",
     "damaged variant: object headers start a line and no stream contains a line that looks like `n g obj`",
 ]
-STATEMENT_STATUS: Dict[str, str] = {}
+STATEMENT_STATUS: Dict[str, str] = {
+    "C02_newest_wins": "proved (all histories; hypothesis Rep = sections represent the history, checked per file by repOK)",
+    "C02_newest_wins_checked": "proved (same with the executable hypothesis repOK)",
+    "C02_getobj_fuel": "proved (container nesting never exceeds 2 on a represented history)",
+    "C02_catalog_info": "proved",
+    "C02_hybrid_split": "proved",
+    "C02_form_independent": "proved (corollary)",
+    "C02_cache_transparent": "proved (invariant: cache subset of graph of resolve; any query sequence)",
+    "C02_xrefstm_entry": "proved (any number of Index ranges, widths 0.. with nunpack defaults)",
+    "C02_xrefstm_objids": "proved for the repaired get_objids",
+    "C02_objids_pinned_cex": "proved counter-example for the pinned get_objids (fixed in the repo)",
+    "C02_revreadlines_bufsize": "proved (all b >= 1, all byte strings)",
+    "C02_startxref_bufsize": "proved (corollary)",
+    "C02_damaged_cex": "proved counter-example (open finding wellformed-but-wrong-xref-no-rescan)",
+    "C02_damaged_partial": "partial: only for tables whose offsets are right; body-scan theorem (C02_fallback) not proved",
+    "table_load / stream_load / hybrid_load (byte-level writer inverse for the classic table text)": "not proved: model + correspondence only",
+    "C02_fallback": "not proved: fallbackLoad is modelled and tied by correspondence on classic files",
+}
 
 BUFSIZES = [1, 2, 3, 7, 16, 4096]
 
